@@ -583,7 +583,9 @@ def finish(ctx, level, explanation, t0, extra_cov=None, trusted_base=None):
     for ob in ctx.obs:
         counts[ob.rule] = counts.get(ob.rule, 0) + 1
     floor_fail = ctx.floor_failures()
-    if floor_fail:
+    if floor_fail and not any(o.verdict == REFUTED for o in ctx.obs):
+        # (with a refuted obligation the violation is reported; rules that stop at their first
+        # refutation naturally produce fewer instances)
         raise AnalysisError('rule instance floor not met (a rule matching nothing passes '
                             'vacuously): ' + '; '.join(floor_fail))
 
